@@ -276,9 +276,9 @@ add("first-sweeps2", "%start S\n%%\nD: 'd';\nS: D A 'x' | D R A;\nA: B;\nB: Cc;\
     inputs=["d x", "d z y p r", "d z", "d z y p", "d"])
 # more than TRY_PARSE_AT_MOST lexemes after the error: ranking must count from the error position
 add("rec-long-tail", "%start E\n%%\nE: E '+' 'n' | 'n';\n", tags=["rec"],
-    inputs=["n n" + " + n" * 200, "n + + n" + " + n" * 140, "n n + n"])
+    inputs=["n n" + " + n" * 200, "n + + n" + " + n" * 140, "n n + n"], costs=[1, 1])
 add("rec-long-tail2", "%start L\n%%\nL: L ',' I | I;\nI: 'x' | '(' L ')';\n", tags=["rec"],
-    inputs=["x x" + " , x" * 150, "( x x" + " , x" * 130 + " )", "x , , x"])
+    inputs=["x x" + " , x" * 150, "( x x" + " , x" * 130 + " )", "x , , x"], costs=[1, 1, 1, 1])
 
 # no repair leads to success and every step is an insert: with large token costs the accumulated
 # cost used to overflow (panic) before the time budget ran out
